@@ -11,6 +11,7 @@ RULE = ("bounded-exhaustive enumeration: mpz operands = {0, +-EXH(L5) up to 3 li
         "alias modes, bit indices on both sides of every limb/size/allocation edge; mpn logic ops for every n up to the bound "
         "over RUN contents. Oracle: Python's infinite two's-complement operators. distinct_nontrivial = distinct "
         "(function, operand signs and sizes, result size/sign or returned index class) signatures.")
+RULE = RULE + (" " + 'Later additions: bit indices up to 2^64-2 for tstbit/scan0/scan1.')
 ASSUMPTIONS = ["Python int bit operators are the reference model", "mp_bitcnt_t maximum is 2^64-1 (ULONG_MAX) on this ABI"]
 BUDGET = {"quick": 300, "thorough": 2400}
 UMAX = (1 << 64) - 1
